@@ -15,7 +15,8 @@ equal to the transcription of the code for ALL histories: C06_lstack_partial).
 This file re-implements that machine and the reference LIFO in a few lines.
 
 The matcher is true for a case iff
-  1. the implementation is the LINKED stack (cfg word = 1), the input is a
+  1. the implementation is the LINKED stack (cfg word = 1, 3 or 5: impl 1 at
+     any of the three element types), the input is a
      well-formed operation list, and
   2. the WHOLE observation (every operation, then the end-of-case Size / pop-all
      / Size, Pop, Size, Peek) is exactly what the defect machine produces — so
@@ -82,8 +83,8 @@ def _observe(t, ops, defect):
 
 
 def c06_lstack_pop(inp, obs):
-    if len(inp) < 2 or inp[0] != 1:
-        return False                      # only the linked stack
+    if len(inp) < 2 or inp[0] not in (1, 3, 5):
+        return False                      # only the linked stack (cfg = impl + 2*inst, impl 1; any element type)
     t = inp[1]
     rest = inp[2:]
     if len(rest) % 2:
